@@ -341,6 +341,45 @@ theorem tie_emptyTrashCalls :
     emptyTrashCalls = ["unixTrashLocRegexp.FindStringSubmatch", "v.os.Remove", "blockDirRe.MatchString"] ∧
     fsCalls (emptyTrashCalls.filter (fun c => c == "v.os.Remove")) = skeleton .emptyTrash := by decide
 
+/-- UnixVolume.Compare, whole text (tiny function): stat, then read-and-compare under getFunc;
+nothing else — in particular no call that changes the volume (Model.compareEvs: no-effect events) -/
+theorem tie_compareText : compareText =
+  "{ path := v.blockPath(loc) if _, err := v.stat(path); err != nil { return v.translateError(err) } return v.getFunc(ctx, path, func(rdr io.Reader) error { return compareReaderWithBuf(ctx, rdr, expect, loc[:32]) }) }" := rfl
+
+/-- CompareAndTouch: the context is checked right after Compare, before anything else is done with
+its result; Touch only after a nil Compare (Model.handlePut `compareCancelled`, Model.putCore) -/
+theorem tie_compareAndTouchSkel : compareAndTouchSkel =
+  ["for {",
+   "call mnt.Compare => err",
+   "call ctx.Err",
+   "if ctx.Err() != nil {",
+   "call ctx.Err",
+   "return",
+   "} else {",
+   "if err == CollisionError {",
+   "return",
+   "} else {",
+   "call os.IsNotExist",
+   "if os.IsNotExist(err) {",
+   "continue",
+   "} else {",
+   "if err != nil {",
+   "continue",
+   "}",
+   "}",
+   "}",
+   "}",
+   "call mnt.Touch => err",
+   "if err != nil {",
+   "continue",
+   "}",
+   "return",
+   "}",
+   "return"] := rfl
+
+theorem tie_getFuncCalls : fsCalls getFuncCalls = skeleton .getFunc := by decide
+theorem tie_statCalls : fsCalls statCalls = skeleton .stat := by decide
+
 /-- the literals the model's names are built from -/
 theorem tie_tmpPrefix : tmpPrefix = "tmp".toList := by decide
 theorem tie_trashInfix : trashInfix = ".trash.".toList := by decide
